@@ -194,6 +194,8 @@ def jobs(tier):
             kw = {"form": 2, "PR": 2, "b0": False, "b1": False} if op == "islice" else {}
             add(op, 1, N1, 2 * N1 + 2, fl=fl, ffl=ffl, **kw)
         for op in AGGS1:
+            if op == "sorted" and fl == "seq":
+                continue  # CrossHair's sorted() model rejects __getitem__-only sequences (engine limitation)
             add(op, 1, N1, 2 * N1 + 2, fl=fl, ffl=ffl)
             if op not in ("all", "any"):
                 add(op, 1, N1, N1 + 1, fl=fl, ffl=ffl, Z=(1, 3))
